@@ -11,7 +11,9 @@
    - wf_hist: every headers message is shorter than the in-memory window
      (2000 < 10000 in the code), rollBackToHeight is not something peers can
      invoke, and fewer than 1000000 headers in total (the model's height
-     arithmetic is exact below that bound). *)
+     arithmetic is exact below that bound).
+   Histories may contain restarts (ORestart: a new block manager built by
+   newBlockManager over the same stores) anywhere. *)
 From stdpp Require Import list.
 From Coq Require Import ZArith.
 From Verif Require Import S2.Model C01.Spec S2.Basics S2.Invariant C01.Proofs.
@@ -62,16 +64,20 @@ Proof. exact never_traps. Qed.
 Print Assumptions C01_never_traps.
 
 (* the hypotheses are satisfiable by a history with a valid batch, a batch
-   valid only up to some index, a duplicate, a heavier fork and a checkpoint *)
+   valid only up to some index, a duplicate, a restart, a heavier fork and a
+   checkpoint *)
 Example C01_nonvacuous :
   let P := ex_P [(4, 204)] in
   wf_params P /\ no_collision P ex_ops /\ wf_hist P ex_ops /\
-  map (fun k => map hid (chain (run P (init_state P 7) (take k ex_ops)))) [2; 3; 4; 5; 7]%nat =
-    [[100; 101; 102]; [100; 101; 102]; [100; 101; 102]; [100; 101; 202; 203]; [100; 101; 202; 203; 204]].
+  map (fun k => map hid (chain (run P (init_state P 7) (take k ex_ops)))) [2; 3; 4; 5; 7; 9]%nat =
+    [[100; 101; 102]; [100; 101; 102]; [100; 101; 102]; [100; 101; 102]; [100; 101; 202; 203];
+     [100; 101; 202; 203; 204]] /\
+  (let s := run P (init_state P 7) (take 5 ex_ops) in
+   (map nheight (hl s), syncPeer s, peers s, nextCp s) = ([2], None, [], Some (4, 204))).
 Proof.
   split; [|split; [|split]].
   - split; cbn; lia.
   - apply no_collision_b_sound. vm_compute. reflexivity.
   - split; [repeat constructor; vm_compute; reflexivity|vm_compute; discriminate].
-  - vm_compute. reflexivity.
+  - split; vm_compute; reflexivity.
 Qed.
